@@ -176,6 +176,12 @@ def get_state(simulator, tstates=True):
     else:
         ram = simulator.memory[0x4000:]
         machine = '48K'
+        outfffd = getattr(simulator.tracer, 'outfffd', 0)
+        ay = getattr(simulator.tracer, 'ay', ())
+        if outfffd or any(ay):
+            # The tracers respond to the AY ports on a 48K machine too
+            state.extend(f'ay[{n}]={v}' for n, v in enumerate(ay))
+            state.append(f'fffd={outfffd}')
     return ram, registers, state, machine
 
 def get_registers(config, state, as_array=True):
